@@ -82,17 +82,26 @@ class Obj:
         return o
 
 
-def resolve(v, issues, stack=()):
-    """replace ("ref", Obj) leaves by obj expressions; a cycle is an issue"""
+def resolve(v, issues, stack=(), seen=None):
+    """replace ("ref", Obj) leaves by obj expressions; a cycle is an issue; `seen` counts how often each instance is stored"""
     if v[0] == "ref":
         o = v[1]
+        if seen is not None:
+            seen[id(o)] = (o, seen.get(id(o), (o, 0))[1] + 1)
         if id(o) in stack:
             issues.append("the sample contains itself (an instance of %s is stored inside itself): encode never terminates" % o.ty)
             return ["dflt"]
-        return ["obj", o.ty, [[m, resolve(x, issues, stack + (id(o),))] for m, x in o.sets]]
+        return ["obj", o.ty, [[m, resolve(x, issues, stack + (id(o),), seen)] for m, x in o.sets]]
     if v[0] == "list":
-        return ["list", [resolve(x, issues, stack) for x in v[1]]]
+        return ["list", [resolve(x, issues, stack, seen) for x in v[1]]]
     return v
+
+
+def resolve_shared(v, issues):
+    """-> (tree, [type names of instances stored more than once])  (reference semantics: Go pointers, Java, Python)"""
+    seen = {}
+    tree = resolve(v, issues, (), seen)
+    return tree, sorted({o.ty for o, n in seen.values() if n > 1})
 
 
 def member_ty(structs, ty, member):
@@ -258,7 +267,7 @@ def go_tests(files, ex, out):
                     L.skip_residue("go test body")
             if "original" in env:
                 T["packet"] = env["original"].ty
-                T["sample"] = resolve(("ref", env["original"]), I)
+                T["sample"], T["shared"] = resolve_shared(("ref", env["original"]), I)
                 if sk and sk[2].group(1) != T["packet"]:
                     I.append("original is a %s, decoded a %s" % (T["packet"], sk[2].group(1)))
             else:
@@ -343,7 +352,7 @@ def py_tests(files, ex, out):
                     L.skip_residue("python test body")
             if "self.packet" in env:
                 T["packet"] = env["self.packet"].ty
-                T["sample"] = resolve(("ref", env["self.packet"]), I)
+                T["sample"], T["shared"] = resolve_shared(("ref", env["self.packet"]), I)
                 if sk and sk[3].group(1) != T["packet"]:
                     I.append("original is a %s, decoded a %s" % (T["packet"], sk[3].group(1)))
             else:
@@ -727,7 +736,8 @@ def java_tests(files, ex, out):
                 L.skip_residue("java test body")
         if "original" in env:
             T["packet"] = env["original"].ty.split(".")[-1]
-            T["sample"] = java_strip(resolve(("ref", env["original"]), I))
+            tree, T["shared"] = resolve_shared(("ref", env["original"]), I)
+            T["sample"] = java_strip(tree)
             if sk and (sk[2].group(1) != T["packet"] or sk[2].group(2) != T["packet"]):
                 I.append("original is a %s, decoded a %s" % (T["packet"], sk[2].group(1)))
         else:
